@@ -3,13 +3,21 @@ Model + theorems: lean/Witverif/Abi/Resource.lean, lean/Witverif/Props/C07.lean.
 generated resource glue compiled natively; this check is the component-model host (handle table, scoped
 borrows, dtor calls) over random host histories; every intrinsic call ([resource-new/rep/drop] through the
 H3 symbols), every dtor export call and every user-level Drop is traced and replayed in Lean against the
-host semantics (spec) and against the model of the glue (the trace must be a trace of the model)."""
+host semantics (spec) and against the model of the glue (the trace must be a trace of the model).
+
+Provenance of trace events: `drop`, `new`, `rep` are calls the GUEST makes (H3 symbols); `dtor` is this host calling
+the guest's `[dtor]` export and `udrop` the stub's `Drop` running inside it.  `own+`, `bor+`, `call+/-`, `use` are
+written by this host when it lowers values / starts calls, and `own-`, `lend` when it LIFTS the values the guest
+passed (they are synthesised from observed values, not emitted by the guest)."""
 import os, re, json
 import bind_common as bc
 from bind_common import parse, show, Crash
 from vlib import VERIF
 
-RES_DECL = "  resource res { constructor(x: u32); m0: func(y: u32) -> u32; s0: static func(a: u8) -> res; }\n"
+RES_DECL = ("  resource res { constructor(x: u32); m0: func(y: u32) -> u32; s0: static func(a: u8) -> res; }\n"
+            # a resource with a FALLIBLE constructor (`Result<Self, E>` on the Rust side)
+            "  resource fres { constructor(x: u32) -> result<fres, string>; get: func() -> u32; }\n"
+            "  fpeek: func(x: borrow<fres>, y: option<fres>) -> u32;\n")
 FIXED_I = """  record rr { a: res, n: u32 }
   variant vv { c0, c1(res), c2(list<res>) }
   take: func(a: res, b: list<res>, c: option<res>, d: rr, e: vv, f: tuple<res, u8>, g: result<res, string>);
@@ -82,7 +90,9 @@ class ResHost:
         self.man = [m for m in manifest if m["item"] == item]
         self.exports = [m for m in self.man if m["dir"] == "export"]
         self.imports = [m for m in self.man if m["dir"] == "import"]
-        self.dtor = {m["key"].split("#")[0].split("_", 1)[1]: m["key"] for m in self.man if m["dir"] == "dtor"}
+        # destructor exports by "<iface key>#<resource>"
+        self.dtor = {m["key"].split("_", 1)[1].replace("#[dtor]", "#"): m["key"] for m in self.man if m["dir"] == "dtor"}
+        self.exp_kind = {}        # rep -> "<iface>.<resource>" of every exported resource ever created
         self.exp_ifaces = {m["iface"].split("/")[1] for m in self.exports}
         self.table = {}
         self.next_h = rng.choice([1, 1, 7, 1000])
@@ -121,7 +131,7 @@ class ResHost:
             if e is None:
                 self.fail("resource:drop-of-handle-not-owned", "the guest called resource-drop on a handle it does not hold (double drop, drop after transfer, or drop of a borrow it was not given)", handle=h, function=out.get("key"), args=out.get("vals"))
             elif e["kind"] == "own" and e["res"][0] == "exp":
-                self.call_dtor(module[len("[export]"):], e["res"][1], out)
+                self.call_dtor(module[len("[export]"):] + "#" + name[len("[resource-drop]"):], e["res"][1], out)
             elif e["kind"] == "own":
                 self.imp_objs[e["res"][1]] = "destroyed"
             self.r.native.send("RETURN|0")
@@ -133,6 +143,8 @@ class ResHost:
                 self.fail("resource:new-on-live-rep", "resource-new called with a representation that already backs a live resource", rep=rep)
             self.table[h] = {"kind": "own", "res": ("exp", rep)}
             self.exp_live[rep] = None
+            self.exp_kind[rep] = (module[len("[export]"):].split("/")[1] + "." + name[len("[resource-new]"):],
+                                  module[len("[export]"):] + "#" + name[len("[resource-new]"):])
             self.r.native.send(f"RETURN|{h}")
         elif name.startswith("[resource-rep]"):
             h = bits[0]
@@ -146,9 +158,9 @@ class ResHost:
             out.setdefault("unexpected_imports", []).append(key)
             self.r.native.send("RETURN|0")
 
-    def call_dtor(self, iface_key, rep, out):
+    def call_dtor(self, dtor_key, rep, out):
         """host calls the exported destructor (re-entrantly when triggered by a guest resource-drop)"""
-        key = self.dtor.get(iface_key)
+        key = self.dtor.get(dtor_key)
         self.trace.append(f"dtor {rep}")
         if rep not in self.exp_live:
             self.fail("resource:dtor-on-dead-rep", "the host would run the destructor of an already destroyed resource", rep=rep)
@@ -180,14 +192,14 @@ class ResHost:
             exp = self.is_exp(atom)
             if direction == "export" and position == "arg":
                 if exp and own:
-                    rep = self.pick_exp_owned(remove=True)
+                    rep = self.pick_exp_owned(atom, remove=True)
                     h = self.fresh_h()
                     self.table[h] = {"kind": "own", "res": ("exp", rep)}
                     self.trace.append(f"own+ {h} e:{rep}")
                     self.expect.append(self.exp_live[rep])
                     return f"(h {h})"
                 if exp:
-                    rep = self.pick_exp_owned(remove=False)
+                    rep = self.pick_exp_owned(atom, remove=False)
                     self.trace.append(f"use {rep}")
                     self.expect.append(self.exp_live[rep])
                     return f"(h {rep})"
@@ -225,23 +237,30 @@ class ResHost:
         self.imp_objs[o] = "live"
         return o
 
-    def pick_exp_owned(self, remove):
-        if not self.exp_owned:
-            self.construct()
-        if not self.exp_owned:
-            self.fail("resource:constructor-did-not-yield-resource", "after the exported constructor returned the host holds no live resource (handle not transferred, or the value was destroyed)")
+    def pick_exp_owned(self, atom, remove):
+        """an exported resource of the atom's resource type whose own handle the host holds (constructing one first
+        if there is none)"""
+        kind = atom.split("@")[1]
+        pool = [r for r in sorted(self.exp_owned) if self.exp_kind.get(r, ("",))[0] == kind]
+        if not pool:
+            self.construct(kind)
+            pool = [r for r in sorted(self.exp_owned) if self.exp_kind.get(r, ("",))[0] == kind]
+        if not pool:
+            self.fail("resource:constructor-did-not-yield-resource", "after the exported constructor returned Ok the host holds no live resource of that type (handle not transferred, or the value was destroyed)", resource=kind)
             raise Abort()
-        rep = self.rng.choice(sorted(self.exp_owned))
+        rep = self.rng.choice(pool)
         if remove:
             del self.exp_owned[rep]
         return rep
 
     # ------------------------------------------------------------ scenario steps
-    def construct(self):
-        """host calls the exported constructor: the guest creates a resource, the host receives its handle"""
-        m = next(x for x in self.exports if x["kind"] == "constructor")
+    def construct(self, kind):
+        """host calls the exported constructor of resource `kind` ("<iface>.<res>"): the guest creates a resource,
+        the host receives its handle; a fallible constructor is scripted to return Ok here"""
+        iface, rname = kind.split(".")
+        m = next(x for x in self.exports if x["kind"] == "constructor" and x["resource"] == rname and x["iface"].endswith("/" + iface))
         saved = self.expect        # we may be in the middle of generating the arguments of another call
-        self.export_step(m)
+        self.export_step(m, force_ok=True)
         self.expect = saved
 
     def handles_in(self, term, ann):
@@ -286,7 +305,7 @@ class ResHost:
             return v
         return show(walk(parse(term), parse(ann)))
 
-    def export_step(self, m):
+    def export_step(self, m, force_ok=False):
         self.call_k += 1
         k = self.call_k
         self.trace.append(f"call+ {k}")
@@ -294,6 +313,10 @@ class ResHost:
         vals = [bc.gen_val(self.rng, parse(a), 0, False, self.gen_handles(a, "export", "arg", k)) for a in m["params_ann"]]
         self.expect = ret_expect = []
         ret = bc.gen_val(self.rng, parse(m["result_ann"]), 0, False, self.gen_handles(m["result_ann"], "export", "ret", k)) if m["result"] is not None else None
+        if force_ok and ret is not None and ret.startswith("(var 1"):
+            rt = parse(m["result_ann"])
+            self.expect = ret_expect = []
+            ret = f"(var 0 {bc.gen_val(self.rng, rt[1], 1, False, self.gen_handles(m['result_ann'], 'export', 'ret', k))})"
         o = self.r.export_call(m, vals, ret)
         self.kinds["export:" + m["kind"]] = self.kinds.get("export:" + m["kind"], 0) + 1
         if "error" in o:
@@ -433,8 +456,7 @@ class ResHost:
         """the host drops an exported resource it owns: the destructor runs"""
         if not self.exp_owned: return
         rep = self.rng.choice(sorted(self.exp_owned))
-        iface = next(iter(self.dtor))
-        self.call_dtor(iface, rep, {})
+        self.call_dtor(self.exp_kind[rep][1], rep, {})
 
     def run(self, steps):
         self.corr = []
@@ -552,4 +574,7 @@ def run(c):
         "the host is this check's handle table (monotonic indices, so any use after transfer hits a dead index) validated against the Lean host semantics on every trace",
         "user code = emitted stubs: they drop every received value at once; results of imports are dropped at once or stashed and dropped later",
         "error-context handles are not exercised (they need the async runtime of guest-rust: C18-C23)",
+        "trace events own+/bor+/call+-/use (host lowers) and own-/lend (host lifts what the guest passed) are written by this check's host from the values it sends and observes; only drop/new/rep (H3 symbols), dtor (export call) and udrop (stub Drop) originate in the guest",
+        f"tier {c.tier}: {n_worlds} histories of {steps} steps each are replayed (quick: 10 x 40)",
+        "fallible constructors: every world has a resource `fres` whose constructor returns result<fres, string> (imported and exported), scripted to return both Ok and Err",
     ]
